@@ -387,7 +387,10 @@ def check_output(doc, caps, spacing_ok):
 def bounded(ctx, b):
     rng = random.Random(ctx.seed)
     n = 120 if not ctx.thorough else 2000
-    crafted = [["She sells sea shells down by the sea shore"], ["W" * 40], ["x" * 32], ["a b"], ["one", "two", "three", "four"]]
+    crafted = [["She sells sea shells down by the sea shore"], ["W" * 40], ["x" * 32], ["a b"], ["one", "two", "three", "four"],
+               # one source line that needs five (and eight) rows of 32 columns
+               ["aaaaaaaaaaaa bbbbbbbbbbbbbbbbbbbb cccccccccccc dddddddddddddddddddd eeeeeeeeeeee"],
+               [" ".join(ch * 17 for ch in "abcdefgh")], ["x" * 32 + " " + "y" * 32, "z" * 70]]
     for i in range(n + len(crafted)):
         k = rng.choice([1, 2, 3])
         caps, t = [], 0
